@@ -154,6 +154,10 @@ fn child() {
             setter!(h, targets);
             reload_handle = Some(Arc::new(Mutex::new(Box::new(move |v: &RFilter| h.reload(v.targets()).is_ok()) as Box<dyn Fn(&RFilter) -> bool + Send>)));
         } else {
+            // (also here an idle collector answering `sometimes` is alive: cached interests stay `sometimes`, so the reloadable
+            // layer's enabled() is asked on every emission)
+            let (c, _) = RecCollector::new(9, FilterRec { thr: 5, tgts: vec!["a".into(), "b".into()], kind: "lazy".into(), hint: None }, new_log());
+            std::mem::forget(Dispatch::new(c));
             let (f, h) = tracing_subscriber::reload::Subscriber::new(v0.targets());
             shared = Some(Dispatch::new(tracing_subscriber::registry().with(f).with(RecLayer { log: log.clone() })));
             setter!(h, targets);
